@@ -22,6 +22,8 @@ var c13RawSetters = map[string]string{
 }
 
 func c13(p *core.Program, r *core.Report) {
+	r.Rule("R5", "the batch keeps its order: a function outside fragment that calls fragment.bulkImport applies no function of package sort to the variables its row and column arguments are taken from")
+	c13BatchOrderKept(p, r)
 	r.Rule("R1", "guard dominance inside the fragment: in every fragment method that sets bits for a caller (setBit, bulkImport), every path to the raw setter (unprotectedSetBit / bulkImportStandard with a set) passes the mutex guard (handleMutex / bulkImportMutex) or the test that the fragment has no mutex vector; the raw single-bit setter is called only from the frozen set of functions")
 	r.Rule("R2", "type guards on the bulk paths that do not know about mutex vectors: API.ImportRoaring and executor.executeSetRow (Store) refuse every field type except set (and time) before any fragment is touched; Field.importRoaring and fragment.setRow are called only from those paths")
 	r.Rule("R3", "vector wiring: view.newFragment installs a mutex vector exactly for field types mutex and bool, and Field.Import refuses bool rows other than 0 and 1")
